@@ -74,6 +74,7 @@ void termination_on_ctrl_msg(void)
  */
 void termination_on_gvt(simtime_t current_gvt)
 {
+	VH(VH_TERM_CHECK, NULL, VH_BITS(max_t), lps_to_end);
 	if(likely((lps_to_end || max_t >= current_gvt) && current_gvt < global_config.termination_time))
 		return;
 	max_t = SIMTIME_MAX;
